@@ -614,7 +614,7 @@ func JudgeCluster(sc *ClusterScenario, tr *Trace) ([]pbt.Violation, ClusterStats
 		return false
 	}
 	accepts := func(receiver string, idx int, t1, t2 time.Time) bool {
-		ok := func(b Behave) bool { return b.Kind == "ok" || (b.Kind == "slow" && b.D <= 10) }
+		ok := func(b Behave) bool { return b.Kind == "ok" || (b.Kind == "slow" && b.Dur() <= 10*time.Second) }
 		cur := Behave{Kind: "ok"}
 		for _, r := range behave[fmt.Sprintf("%s/%d", receiver, idx)] {
 			if !r.From.After(t1) {
